@@ -177,7 +177,7 @@ def main():
         cov["samples"] += r.get("samples", [])[:12]
         cov["functions_under_contract"] += r.get("functions", [])
         cov["bounded_harnesses"] += r.get("bounded", [])
-        cov["units"].append({k: r.get(k) for k in ("kind", "name", "obligations", "discharged", "smt_time_s", "wall_s", "verified_functions", "backend", "rlimit", "note") if k in r})
+        cov["units"].append({k: r.get(k) for k in ("kind", "name", "obligations", "discharged", "smt_time_s", "wall_s", "verified_functions", "backend", "rlimit", "note", "isolated_runs", "lemmas") if k in r})
     cov["trusted_base"] = sorted(set(cov["trusted_base"]))
     cov["known_findings_reported"] = [k["obligation"] for k, _ in known_hits]
     cov["undecided"] = [u.get("what") for u in undecided]
